@@ -33,6 +33,9 @@ type Fault struct {
 	Exec bool // hand the request to the agent first, then replace the reply
 	Kind FKind
 	Body []byte // FMalformed / FWrongType: the reply body to send
+	// Partial (FClose with Exec): the connection is closed in the middle of the genuine reply - after the length
+	// prefix and Partial-1 bytes of the body (1 = right after the prefix).  For the caller this is a closed connection.
+	Partial int
 }
 
 const maxFrame = 16 << 20
@@ -198,6 +201,15 @@ func (p *Proxy) serve() {
 			p.mu.Lock()
 			p.alive = false
 			p.mu.Unlock()
+			if f.Exec && f.Partial > 0 && len(reply) > 0 && len(reply) <= maxFrame {
+				binary.BigEndian.PutUint32(hdr[:], uint32(len(reply)))
+				n := f.Partial - 1
+				if n >= len(reply) {
+					n = len(reply) - 1
+				}
+				_, _ = c.Write(hdr[:])
+				_, _ = c.Write(reply[:n])
+			}
 			return
 		}
 	}
